@@ -242,8 +242,8 @@ func equals(t types.Type, x, y value) bool {
 		return x == y.(string)
 	case *value:
 		return x == y.(*value)
-	case chan value:
-		return x == y.(chan value)
+	case *mchan:
+		return x == y.(*mchan)
 	case structure:
 		return x.eq(t, y)
 	case array:
@@ -305,8 +305,8 @@ func hash(outer, t types.Type, x value) int {
 		return hashString(x)
 	case *value:
 		return int(uintptr(unsafe.Pointer(x)))
-	case chan value:
-		return int(uintptr(reflect.ValueOf(x).Pointer()))
+	case *mchan:
+		unsupported("channel used as a map key")
 	case structure:
 		return x.hash(t)
 	case array:
